@@ -13,11 +13,15 @@ import time
 
 import numpy as np
 
-from . import gen, refmodel
+from . import gen, refmodel, resultcheck
 from .probes import KernelProbe, SchedulerProbe
+from .recorder import Recorder
 
 OUT = os.environ.get("SPECKIT_VERIF_PLUGIN_OUT")
-STATE = {"plans": 0, "kernel_calls": 0, "kernel_checked": 0, "viol": [], "t_oracle": 0.0}
+STATE = {"plans": 0, "kernel_calls": 0, "kernel_checked": 0, "viol": [], "t_oracle": 0.0,
+         "results": 0, "results_checked": 0}
+RESULT_REC = Recorder()     # collects what the result-level monitors (C09, C10, C11, C20) report
+_ORIG = {}
 INV = {v: k for k, v in gen.SCHED_FUNC.items()}
 BUDGET_S = float(os.environ.get("SPECKIT_VERIF_PLUGIN_BUDGET", "240"))
 
@@ -88,6 +92,56 @@ def _kernel_cb(name, args, out):
     STATE["t_oracle"] += time.time() - t0
 
 
+def _check_result(an, res):
+    """Result-level monitors on every result the tests' own analyses produce."""
+    STATE["results"] += 1
+    if STATE["t_oracle"] > BUDGET_S:
+        return
+    t0 = time.time()
+    try:
+        data = np.asarray(getattr(an, "data", np.zeros(1)), dtype=float)
+        raw = [np.asarray(getattr(res, k)) for k in ("XX", "YY", "XY", "M2") if getattr(res, k, None) is not None]
+        if (not np.all(np.isfinite(data))) or float(np.max(np.abs(data), initial=0.0)) > 1e100 \
+                or any(not np.all(np.isfinite(a)) for a in raw):
+            return   # outside the monitors' domain (tests feeding non-finite / overflowing data)
+        fs = float(an.fs)
+        STATE["results_checked"] += 1
+        for pid, fn in (("C09", lambda r: resultcheck.c09_identities(res, r, "[repo test] ") if res.iscsd else None),
+                        ("C10", lambda r: resultcheck.c10_formulas(res, r, "[repo test] ")),
+                        ("C11", lambda r: resultcheck.c11_identities(res, r, fs, "[repo test] ")),
+                        ("C20", lambda r: resultcheck.c20_relations(res, r, fs, "[repo test] "))):
+            r = Recorder()
+            r.case({"kind": "repo-test-result", "nf": int(res.nf)}, nontrivial=True)
+            fn(r)
+            for key, lst in r.violations.items():
+                _emit(pid, key, lst[0]["msg"])
+    except Exception as e:
+        _emit("oracle-error", "oracle-error", "result monitor: " + repr(e))
+    STATE["t_oracle"] += time.time() - t0
+
+
+def _install_result_monitors():
+    from speckit.analysis import SpectrumAnalyzer
+    for name in ("compute", "compute_single_bin"):
+        orig = getattr(SpectrumAnalyzer, name)
+        _ORIG[name] = orig
+
+        def wrapped(self, *a, __orig=orig, **k):
+            out = __orig(self, *a, **k)
+            _check_result(self, out)
+            return out
+        wrapped.__name__ = name
+        wrapped.__doc__ = orig.__doc__
+        setattr(SpectrumAnalyzer, name, wrapped)
+
+
+def _uninstall_result_monitors():
+    from speckit.analysis import SpectrumAnalyzer
+    for name, orig in _ORIG.items():
+        setattr(SpectrumAnalyzer, name, orig)
+    _ORIG.clear()
+
+
 _SP = SchedulerProbe(_plan_cb)
 _KP = KernelProbe(_kernel_cb)
 
@@ -96,13 +150,16 @@ def pytest_sessionstart(session):
     import speckit  # noqa: F401
     _SP.install()
     _KP.install()
+    _install_result_monitors()
 
 
 def pytest_sessionfinish(session, exitstatus):
     _SP.uninstall()
     _KP.uninstall()
+    _uninstall_result_monitors()
     if OUT:
         with open(OUT, "w") as f:
             json.dump({"plans": STATE["plans"], "kernel_calls": STATE["kernel_calls"],
                        "kernel_checked": STATE["kernel_checked"], "violations": STATE["viol"],
+                       "results": STATE["results"], "results_checked": STATE["results_checked"],
                        "oracle_seconds": STATE["t_oracle"], "pytest_exitstatus": int(exitstatus)}, f)
